@@ -39,12 +39,30 @@ class FieldWrites(object):
 
     def own(self, fn):
         out = set()
+        # local pointers into a field (`dst = req->account`, `p = &obj->f[2]`): a store through them writes the field
+        into = {}
+        for s in fn.sites():
+            ev = s.ev
+            val = ev.get('init') if ev['k'] == 'decl' else ev.get('rhs') if ev['k'] == 'store' and ev.get('op') == '=' else None
+            tgt = ev.get('var') if ev['k'] == 'decl' else (ev['lhs']['name'] if ev['k'] == 'store' and is_var(ev.get('lhs')) else None)
+            tt = ev.get('t', '') if ev['k'] == 'decl' else ((ev.get('lhs') or {}).get('t', '') if ev['k'] == 'store' else '')
+            if tgt and isinstance(val, dict) and '*' in tt and val.get('k') in ('mem', 'bin', 'un'):
+                fs = [x['field'] for x in walk(val) if x.get('k') == 'mem' and x.get('arr') is not None]
+                if fs:
+                    into.setdefault(tgt, set()).add(fs[0])
         for s in fn.sites():
             ev = s.ev
             if ev['k'] == 'store':
                 f = outer_field(ev['lhs'])
                 if f:
                     out.add(f)
+                l = ev.get('lhs') or {}
+                if l.get('k') == 'un' and l.get('op') == '*':
+                    for x in walk(l.get('e')):
+                        if x.get('k') == 'var' and x.get('name') in into:
+                            out |= into[x['name']]
+                if l.get('k') == 'idx' and is_var(l.get('base')) and l['base']['name'] in into:
+                    out |= into[l['base']['name']]
             elif ev['k'] in ('bitset', 'bitclear'):
                 f = outer_field(ev.get('set'))
                 if f:
@@ -56,6 +74,8 @@ class FieldWrites(object):
                         for x in walk(ev['args'][i]):
                             if x.get('k') == 'mem':
                                 out.add(x['field'])
+                            if x.get('k') == 'var' and x.get('name') in into:
+                                out |= into[x['name']]
         return out
 
     def fields(self, fn, stack=()):
